@@ -22,6 +22,7 @@ use super::buffer_stream::*;
 use super::collect::Collect;
 use super::column_ops::*;
 use super::combine_null_maps::CombineNullMaps;
+use super::kleene_null_map::KleeneNullMap;
 use super::compact::Compact;
 use super::compact_with_nullable::CompactWithNullable;
 use super::compact_nullable::CompactNullable;
@@ -282,6 +283,22 @@ pub mod operator {
         Ok(Box::new(CombineNullMaps {
             lhs: lhs.nullable_any()?,
             rhs: rhs.nullable_any()?,
+            output,
+        }))
+    }
+
+    pub fn kleene_null_map<'a>(
+        lhs: TypedBufferRef,
+        rhs: TypedBufferRef,
+        is_or: bool,
+        output: BufferRef<u8>,
+    ) -> Result<BoxedOperator<'a>, QueryError> {
+        Ok(Box::new(KleeneNullMap {
+            lhs: lhs.forget_nullability().u8()?,
+            lhs_nullable: lhs.is_nullable(),
+            rhs: if rhs.is_null() { None } else { Some(rhs.forget_nullability().u8()?) },
+            rhs_nullable: rhs.is_nullable(),
+            is_or,
             output,
         }))
     }
